@@ -386,6 +386,8 @@ class MediaSegmentList(HTMLHandlerBase):
     decorators = [uses_media_file, uses_stream]
 
     def get(self, spk: int, mfid: int) -> flask.Response:
+        if current_media_file.representation is None:
+            return flask.make_response('Media file needs indexing', 404)
         context = self.create_context()
         start = 0
         segments = []
@@ -530,6 +532,10 @@ class MediaSegmentInfo(SegmentInfoBase):
     decorators = [uses_media_file, uses_stream]
 
     def get(self, spk: int, mfid: int, segnum: int) -> flask.Response:
+        if current_media_file.representation is None:
+            return flask.make_response('Media file needs indexing', 404)
+        if segnum >= len(current_media_file.representation.segments):
+            return flask.make_response(f'Segment {segnum} not found', 404)
         frag = current_media_file.representation.segments[int(segnum)]
         options = mp4.Options(lazy_load=False)
         if current_media_file.representation.encrypted:
